@@ -13,7 +13,13 @@ for f in sys.argv[1:]:
             m2 = re.search(r"# (.*)\)$", rest.strip())
             if m2:
                 first = m2.group(1)[:160]
-            res.setdefault(seed, {})[prop] = dict(tier=tier, verdict=verdict if verdict in ("CAUGHT", "MISSED") else "ERROR", first=first)
+            v = verdict if verdict in ("CAUGHT", "MISSED") else "ERROR"
+            old = res.setdefault(seed, {}).get(prop)
+            # a later run replaces an earlier one, except that a tool error (two runs colliding on scratch directories)
+            # never replaces a verdict, and a quick-tier CAUGHT is kept over a later thorough one
+            if old and v == "ERROR" and old["verdict"] != "ERROR":
+                continue
+            res[seed][prop] = dict(tier=tier, verdict=v, first=first)
 rows = []
 for d in sorted(glob.glob(os.path.join(ROOT, "seeded", "C*-*"))):
     seed = os.path.basename(d)
